@@ -336,6 +336,32 @@ def r5_other_content(chk, fx, t, paths):
         chk.instance("C16/R5", "%s goes on after <%s> only" % (fn, "/".join(names)), t["def"], loc_of(t.get("sp")), holds=not bad,
                      key="C16/R5 %s accepts-other-content %s" % (fn, ",".join(bad)),
                      detail=None if not bad else "a statement containing <%s> can still be selected as managed" % bad[0])
+    # .. and nothing of a statement that ends up selected is skipped unseen: read_to_end either skips the element the reader has just
+    # recognised (its own start tag) or the whole statement on the way to "not managed" / an error.  `read_to_end(</then>)` after the
+    # first child of <then> would hide every further action from the arms above.
+    n_skip = 0
+    for p in paths:
+        evs = 0
+        for e in p.trace:
+            if e[0] == "call" and "read_resolved_event" in e[1]:
+                evs += 1
+            elif e[0] == "call" and T.short(e[1], 2).endswith("read_to_end") and len(e[2]) >= 2:
+                n_skip += 1
+                tgt = A.vstr(e[2][1])
+                m = re.search(r"read_resolved_event(?:#(\d+))?\(", tgt)
+                if m:
+                    own = int(m.group(1) or 0) == evs - 1
+                    chk.instance("C16/R5", "%s: read_to_end skips the element just recognised" % fn, t["def"], loc_of(e[3]), holds=own,
+                                 key="C16/R5 %s skips-unseen-content" % fn,
+                                 detail=None if own else "skips to the end of an enclosing element (the one opened %d event(s) earlier): what follows in it is never looked at, "
+                                 "and a statement with other content is still selected" % (evs - 1 - int(m.group(1) or 0)))
+                elif "«param:" in tgt:
+                    gone = p.end == "return" and (ret_is_none(p) or ret_is_err(p))
+                    chk.instance("C16/R5", "%s: the whole statement is skipped only on the way to 'not managed'" % fn, t["def"], loc_of(e[3]), holds=gone,
+                                 key="C16/R5 %s skips-statement-but-goes-on" % fn)
+                else:
+                    chk.instance("C16/R5", "%s: read_to_end target of unrecognised form (%s)" % (fn, tgt[:60]), t["def"], loc_of(e[3]), holds=False,
+                                 key="C16/R5 %s skips-unseen-content" % fn)
     deleg = sorted({T.short(c[1], 2) for p in paths for c in p.calls("ReadXml::read_xml", "BorrowedReadXml::borrowed_read_xml")})
     if not deleg:
         chk.floor("C16/R5 continuing element iterations", n, 2)
